@@ -119,6 +119,7 @@ class Extractor:
             m = Module(repo, rel)
             self.modules[m.pyname] = m
         self.targets: list[tuple[str, str]] = list(cfg.TARGETS)  # (module pyname, qualname)
+        self.needs_extra: set[str] = set()  # modules whose extracted code uses PyModel.Extra
         self.metas: dict[tuple[str, str], FnMeta] = {}
         self._analyse()
 
@@ -236,7 +237,10 @@ class Extractor:
             if pyname in cfg.LISTENERS:
                 parts.append(self.emit_listener_glue(pyname, keys))
             parts.append(f"end {ns}")
-            out[lean_mod] = "\n".join(parts) + "\n"
+            text = "\n".join(parts) + "\n"
+            if "PSet.add" in text or "(mkSet [])" in text:
+                text = text.replace("import Generated.Consts\n", "import Generated.Consts\nimport PyModel.Extra\n", 1)
+            out[lean_mod] = text
         return out
 
     def emit_listener_glue(self, pyname, keys) -> str:
@@ -306,6 +310,9 @@ class Extractor:
         except Unsupported as e:
             meta.error = f"unsupported construct: {e}"
             meta.lean_text = f"-- EXTRACTION FAILED for {key[1]}: {meta.error}"
+        except Exception as e:  # noqa: BLE001 — code outside the translation tables must not crash the checker
+            meta.error = f"construct outside the translation tables ({type(e).__name__}: {e})"
+            meta.lean_text = f"-- EXTRACTION FAILED for {key[1]}: {meta.error}".replace("\n", " ")
         self.metas[key] = meta
         return meta
 
@@ -767,8 +774,13 @@ class FnTranslator:
             return "(" + ", ".join(self.pattern(x) for x in t.elts) + ")"
         raise Unsupported("pattern " + ast.unparse(t))
 
-    def pattern_names(self, t) -> set[str]:
-        return {n.id for n in ast.walk(t) if isinstance(n, ast.Name) and n.id != "_"}
+    def pattern_names(self, t) -> list[str]:
+        """names bound by a target pattern, in source order (deterministic: never iterate a Python set here)"""
+        out: list[str] = []
+        for n in ast.walk(t):
+            if isinstance(n, ast.Name) and n.id != "_" and n.id not in out:
+                out.append(n.id)
+        return out
 
     def iter_expr(self, e) -> str:
         """iterable -> Lean list"""
@@ -798,7 +810,7 @@ class FnTranslator:
         tgt = self.pattern(g.target)
         saved_pre, saved_decl = self.pre, set(self.declared)
         self.pre = []
-        self.declared |= self.pattern_names(g.target)
+        self.declared |= set(self.pattern_names(g.target))
         self.in_lambda += 1
         conds = [self.cond(c) for c in g.ifs]
         cond_pre = self.pre
@@ -1006,6 +1018,8 @@ class FnTranslator:
                 return f"(Val.mkTup {self.atom(self.comprehension(x))})"
             return self.as_list(x)
         if name == "set":
+            if not a:
+                return "(mkSet [])"
             return f"(mkSet {self.atom(self.as_list(a[0]))})"
         if name == "dict":
             if not a:
@@ -1281,6 +1295,8 @@ class FnTranslator:
             if s.value is None:
                 return []
             ann = ast.unparse(s.annotation)
+            if isinstance(s.value, ast.Call) and isinstance(s.value.func, ast.Name) and s.value.func.id == "set" and isinstance(s.target, ast.Name):
+                self.sets.add(s.target.id)
             ty = cfg.lean_type(ann, self.hints.get("types", {}).get(s.target.id))
             val = self.expr(s.value)
             if ty:
@@ -1327,14 +1343,14 @@ class FnTranslator:
             if isinstance(t, ast.Tuple):
                 val = self.expr(v)
                 names = self.pattern_names(t)
-                if names & self.declared:
+                if set(names) & self.declared:
                     tmps = {n: self.fresh(n) for n in names}
                     pat = self.pattern_renamed(t, tmps)
                     lines = [f"let {pat} := {val}"]
                     for n, tm in tmps.items():
                         lines += self.assign_to(ast.Name(id=n), tm, rebind=True)
                     return self.flush(lines, ind)
-                self.declared |= names
+                self.declared |= set(names)
                 # tuple patterns cannot be `let mut`-destructured together with effects; bind then re-declare
                 lines = [f"let {self.pattern(t)} := {val}"]
                 lines += [f"let mut {mangle(n)} := {mangle(n)}" for n in sorted(names)]
@@ -1481,6 +1497,8 @@ class FnTranslator:
                     data = self.hints.get("add_edges_from_data", False)
                     fn = "Graph.addEdgesFromData" if data else "Graph.addEdgesFrom"
                     return self.assign_to(recv, f"({fn} {g} {self.atom(self.as_list(x))})")
+            if attr == "add" and isinstance(recv, ast.Name) and recv.id in self.sets:
+                return self.assign_to(recv, f"(PSet.add {self.e(recv)} {self.e(a[0])})")
             if attr == "append":
                 return self.assign_to(recv, f"(pyAdd {self.e(recv)} [{self.expr(a[0])}])")
             if attr == "extend":
@@ -1529,7 +1547,7 @@ class FnTranslator:
         self.pre = []
         names = self.pattern_names(tgt)
         saved_decl = set(self.declared)
-        self.declared |= names
+        self.declared |= set(names)
         if hidden_key:
             self.declared.add(hidden_key)
         out = [p + x for x in head_pre]
@@ -1554,7 +1572,7 @@ class FnTranslator:
         if has_else:
             out.append(f"{p}if !{flag} then")
             out += self.block(s.orelse, ind + 1)
-        self.declared = saved_decl | (self.declared - names)
+        self.declared = saved_decl | (self.declared - set(names))
         return out
 
     def graph_nodes_subscript_q(self, e) -> bool:
